@@ -5058,7 +5058,7 @@ func reduceBinaryExprDurationLHS(op Token, lhs *DurationLiteral, rhs Expr, loc *
 			if rhs.Val == 0 {
 				return &DurationLiteral{Val: 0}
 			}
-			return &DurationLiteral{Val: lhs.Val / time.Duration(rhs.Val)}
+			return &DurationLiteral{Val: time.Duration(float64(lhs.Val) / rhs.Val)}
 		}
 	case *IntegerLiteral:
 		switch op {
